@@ -179,20 +179,24 @@ def b_multipoint(ctx):
     if ctx.tier == 'thorough':
         seqs += [[50, 150, -150, 300, -300, 300, -100], [200, 600, 1000, 60, 1500, 200, 80, 400, 1500, 700, 200], [100, -100, 100, -100, 300, -300]]
     ratio_sets = [(1.0,), (1.0, 0.5), (1.0, 2.0, 3.0), (0.5, 1.0, 2.0), (2.0, 0.5)]
-    ctx.bound = f"{len(seqs)} sequences x point sets with load ratios {ratio_sets} x laws neuber (+ seegerbeste in thorough) x node ids ascending / not ascending"
+    ctx.bound = f"{len(seqs)} sequences x point sets with load ratios {ratio_sets} x laws neuber (+ seegerbeste in thorough) x node ids ascending / not ascending / rows listed point by point"
     ctx.rule = "non-trivial: >= 2 points with different ratios; distinct by (sequence, ratios, law)"
     laws = ['neuber'] if ctx.tier == 'quick' else ['neuber', 'seegerbeste']
     # the labels of the points are bookkeeping: ids 0..n-1 in order, and ids that are not listed in ascending order (13, 11, 12, ...: a filtered / joined mesh) -
     # added after seed C05-d re-sorted the signal of the first pass by node id
-    for lawname, seq, ratios, labelling in itertools.product(laws, seqs, ratio_sets, ('ascending', 'unordered')):
+    for lawname, seq, ratios, labelling in itertools.product(laws, seqs, ratio_sets, ('ascending', 'unordered', 'point-by-point')):
         if not ctx.mine():
             continue
-        if labelling == 'unordered' and len(ratios) < 2:
+        if labelling != 'ascending' and len(ratios) < 2:
             continue
         seq = [float(v) for v in seq]
-        nodes = list(range(len(ratios))) if labelling == 'ascending' else [13, 11, 12, 10][:len(ratios)]
+        nodes = list(range(len(ratios))) if labelling != 'unordered' else [13, 11, 12, 10][:len(ratios)]
         idx = pd.MultiIndex.from_product([range(len(seq)), nodes], names=['load_step', 'node_id'])
         loads = pd.Series([v * r for v in seq for r in ratios], index=idx)
+        if labelling == 'point-by-point':
+            # the same index and data, the rows listed point by point (what pd.concat of per-point histories gives) - added after seed C05-f took every n-th row as the
+            # first point's history
+            loads = pd.concat({nd: pd.Series([v * r for v in seq], index=pd.Index(range(len(seq)), name='load_step')) for nd, r in zip(nodes, ratios)}, names=['node_id', 'load_step']).swaplevel()
         maxima = pd.Series([max(abs(v) for v in seq) * r for r in ratios], index=pd.Index(nodes, name='node_id'))
         law_m = make_law(lawname, maxima)
         ctx.case(len(set(ratios)) > 1, key=(lawname, tuple(seq), ratios, labelling))
